@@ -191,7 +191,7 @@ def nontrivial(seq):
 
 def run_case(case):
     stats = {"steps_disconnected": 0, "steps_connected": 0, "steps_empty_path_connected": 0, "connect_attempts": 0, "available_samples_during_connect": 0, "sequences": 0}
-    tmp = tempfile.mkdtemp(prefix="verif-c13-", dir="/tmp")
+    tmp = tempfile.mkdtemp(prefix="verif-c13-", dir=os.environ.get("VERIF_TMP", "/tmp"))
     with open(os.path.join(tmp, "src"), "wb") as f:
         f.write(scen.blob("c13h", 100))
     viol = []
